@@ -114,6 +114,10 @@ def run(args) -> int:
             # whose designated contradictions close; decided by the weaker logic's own verdict)
             for a_ in ('b:a:MKMaLNa', 'MKcMAab:a:MKcMa', 'MMa:MMKab', 'b:a:MMKaLNMa', 'MAab:a:Ma'):
                 args_.append(dict(argstr=a_))
+        if Lb['modal'] and La['modal'] and Lb['quantified'] and La['quantified']:
+            # constant-domain interplay of quantifiers and modalities (Barcan-style), valid in every such logic
+            for a_ in ('NMSxFx:NSxMFx', 'LVxFx:VxLFx', 'SxMFx:MSxFx', 'NMSxKFxGx:NSxMFx', 'MSxFx:SxMFx'):
+                args_.append(dict(argstr=a_))
         if Lb['quantified'] and La['quantified']:
             Fa = ['P', 0, 0, [['c', 0, 0]]]
             Fx = ['P', 0, 0, [['v', 0, 0]]]
